@@ -96,6 +96,8 @@ pub fn c18_shapes(thorough: bool) -> Vec<Shape> {
         Shape::new("four_gates_exact_power_of_two", &[Commit, AllocMul, AllocMul, AllocMul, AllocMul, Con], &[]),
         Shape::new("empty_combination_constrained_first", &[Commit, AllocMul, ConEmpty, Con, Con], &[&[Chal, ConEmpty, Con]]),
         Shape::new("app_data_between_and_after_commitments", &[Commit, Msg("between".into()), Commit, Msg("after".into()), AllocMul, Con], &[]),
+        // a full gate (allocate_multiplier / multiply) between two paired single allocations
+        Shape::new("gates_between_paired_allocations", &[Commit, Alloc, AllocMul, Alloc, Alloc, Mul, Alloc, Con], &[]),
     ];
     if thorough {
         v.push(Shape::new("four_gates", &[Commit, AllocMul, AllocMul, AllocMul, AllocMul, Con], &[]));
